@@ -40,6 +40,27 @@ Qed.
 Lemma scan_list_cons inv x r : scan_list inv (x :: r) = seen_or (scan_stmt inv x) (scan_list inv r).
 Proof. reflexivity. Qed.
 
+(* the fixpoint is the one-step form iterated *)
+Lemma scan_stmt_step inv s : scan_stmt inv s = step_model inv (scan_list inv) s.
+Proof.
+  destruct s as [|t e|b|m|[b|]]; cbn [step_model].
+  - reflexivity.
+  - apply scan_stmt_if.
+  - apply scan_stmt_for.
+  - reflexivity.
+  - apply scan_stmt_lam.
+  - reflexivity.
+Qed.
+Lemma seen_or_nothing a : seen_or a nothing = a.
+Proof. destruct a as [x y]; unfold seen_or, nothing; cbn. rewrite !orb_false_r. reflexivity. Qed.
+Lemma scan_higher inv c : scan_stmt inv (abs_higher c) = higher_model inv (scan_list inv) c.
+Proof.
+  unfold abs_higher. rewrite scan_stmt_for, scan_list_cons. cbn [scan_list fold_right]. rewrite seen_or_nothing.
+  destruct c as [m|b|]; cbn [higher_model]; [reflexivity | apply scan_stmt_lam | reflexivity].
+Qed.
+Lemma analyze_answer_of d p body : analyze d p body = answer_of (scan_list (scan_depth d p) body).
+Proof. reflexivity. Qed.
+
 Definition silent (s : seen) : Prop := s_dev s = false /\ s_dyn s = false.
 Lemma silent_or a b : silent (seen_or a b) <-> silent a /\ silent b.
 Proof.
